@@ -70,6 +70,52 @@ func edVersFor(r *Rand, path string) string {
 	return r.Pick(edV1)
 }
 
+// Input class "versions that are EQUAL under semver.Compare but DIFFERENT strings" (added for the gap "interval bounds
+// equal as versions, different as strings"). A canonical module version keeps the build tag `+incompatible`
+// (module.CanonicalVersion, checkCanonicalVersion and CheckPathMajor all accept vX.Y.Z+incompatible next to vX.Y.Z
+// whenever the major version fits the path), while semver.Compare ignores build metadata. So `v` and
+// `v+incompatible` are two distinct keys of every typed list (DropExclude / DropReplace / DropRetract / the
+// duplicate tests of AddExclude / AddReplace and the "single version or interval" test of AddRetract all compare
+// STRINGS) that every version-ordered comparison (lineExcludeLess, lineRetractLess) treats as equal. The pools used to
+// contain no such pair for any module path (edV1 has v2.0.0+incompatible but not v2.0.0, edV2 has v2.0.0 but nothing
+// with the tag), so a site that decides string identity with a version comparison - or the other way round - was
+// never exercised: neither by an AddRetract whose bounds are each other's twin, nor by a later Drop* that names an
+// entry by the twin spelling (for a retraction: by the interval AS THE FORMATTED FILE SHOWS IT), nor by a starting
+// file that already holds both spellings.
+//
+// edTwin toggles the tag: the other canonical spelling of the same semantic version.
+func edTwin(v string) string {
+	if v == "" {
+		return v
+	}
+	if strings.HasSuffix(v, "+incompatible") {
+		return strings.TrimSuffix(v, "+incompatible")
+	}
+	return v + "+incompatible"
+}
+
+// edTwinOK: both spellings of v are valid versions for the module path (so the twin is not just an error input).
+func edTwinOK(path, v string) bool { return edVersionOK(path, v) && edVersionOK(path, edTwin(v)) }
+
+// edVersTwinFor: a version for path whose twin is valid too (v0/v1 under a path without major suffix, vN under /vN).
+func edVersTwinFor(r *Rand, path string) string {
+	for i := 0; i < 8; i++ {
+		if v := edVersFor(r, path); edTwinOK(path, v) {
+			return v
+		}
+	}
+	return edVersFor(r, path)
+}
+
+// edSomeTwin spells v the other way with probability pct/100 - only if that is a valid version for path too
+// (AddReplace does not validate its versions: an invalid one is outside the property's "valid arguments").
+func edSomeTwin(r *Rand, pct int, path, v string) string {
+	if r.Chance(pct) && edTwinOK(path, v) {
+		return edTwin(v)
+	}
+	return v
+}
+
 type edFG struct {
 	r *Rand
 	b strings.Builder
@@ -116,13 +162,15 @@ func (g *edFG) args(kind string, modPath string) string {
 		v := edVersFor(r, p)
 		if r.Chance(2) {
 			v += "+meta" // non-canonical in the source; the parser canonicalises the token
+		} else if r.Chance(5) {
+			v = edTwin(edVersTwinFor(r, p)) // the `+incompatible` spelling of an ordinary version (or the reverse)
 		}
 		return g.tok(p) + " " + v
 	case "replace":
 		p := r.Pick(edModPaths)
 		s := g.tok(p)
 		if r.Chance(55) {
-			s += " " + edVersFor(r, p)
+			s += " " + edSomeTwin(r, 5, p, edVersTwinFor(r, p))
 		}
 		s += " => "
 		if r.Chance(45) {
@@ -134,6 +182,17 @@ func (g *edFG) args(kind string, modPath string) string {
 		return s
 	case "retract":
 		lo := edVersFor(r, modPath)
+		if r.Chance(8) {
+			// bounds that are each other's twin (both orders), or a single version in the tagged spelling
+			lo = edVersTwinFor(r, modPath)
+			switch r.Intn(3) {
+			case 0:
+				return "[" + lo + ", " + edTwin(lo) + "]"
+			case 1:
+				return "[" + edTwin(lo) + ", " + lo + "]"
+			}
+			return edTwin(lo)
+		}
 		if r.Chance(50) {
 			return lo
 		}
@@ -339,6 +398,8 @@ func edGenOp(r *Rand, cur *edDirs, work bool) edOp {
 					}
 				}
 			}
+			// the twin spelling of the (existing or fresh) old version: a different key that compares equal
+			ov = edSomeTwin(r, 10, op, ov)
 		}
 		if r.Chance(45) {
 			return edOp{Name: "replace", A: []string{op, ov, r.Pick(edDirPaths[:5]), ""}}
@@ -349,7 +410,7 @@ func edGenOp(r *Rand, cur *edDirs, work bool) edOp {
 	dropReplaceOp := func() edOp {
 		if n := len(cur.L[edReplace]); n > 0 && r.Chance(75) {
 			e := cur.L[edReplace][r.Intn(n)]
-			return edOp{Name: "dropreplace", A: []string{e.K[0], e.K[1]}}
+			return edOp{Name: "dropreplace", A: []string{e.K[0], edSomeTwin(r, 10, e.K[0], e.K[1])}}
 		}
 		p := r.Pick(edModPaths)
 		return edOp{Name: "dropreplace", A: []string{p, r.Pick([]string{"", edVersFor(r, p)})}}
@@ -434,12 +495,21 @@ func edGenOp(r *Rand, cur *edDirs, work bool) edOp {
 		v := edVersFor(r, p)
 		if r.Chance(8) {
 			v = r.Pick([]string{"v1.2", "v9.0.0", "1.0.0", "", "v1.0.0+meta"})
+		} else if r.Chance(12) {
+			// the twin spelling of a version already excluded for p (else of a fresh one): equal as version, new as key
+			v = edVersTwinFor(r, p)
+			for _, e := range cur.L[edExclude] {
+				if e.K[0] == p && r.Bool() {
+					v = e.K[1]
+				}
+			}
+			v = edTwin(v)
 		}
 		return edOp{Name: "exclude", A: []string{p, v}}
 	case 25, 26:
 		if n := len(cur.L[edExclude]); n > 0 && r.Chance(75) {
 			e := cur.L[edExclude][r.Intn(n)]
-			return edOp{Name: "dropexclude", A: []string{e.K[0], e.K[1]}}
+			return edOp{Name: "dropexclude", A: []string{e.K[0], edSomeTwin(r, 10, e.K[0], e.K[1])}}
 		}
 		p := r.Pick(edModPaths)
 		return edOp{Name: "dropexclude", A: []string{p, edVersFor(r, p)}}
@@ -455,11 +525,35 @@ func edGenOp(r *Rand, cur *edDirs, work bool) edOp {
 		}
 		if r.Chance(8) {
 			hi = r.Pick([]string{"v1", "v7.0.0", "", "v1.2.3+meta"})
+		} else if r.Chance(15) {
+			// bounds equal under semver.Compare, different as strings (both orders); sometimes the same tagged
+			// spelling on both sides (a single version again)
+			lo = edVersTwinFor(r, modPath)
+			hi = edTwin(lo)
+			switch r.Intn(5) {
+			case 0, 1:
+				lo, hi = hi, lo
+			case 2:
+				lo = hi
+			}
 		}
 		return edOp{Name: "retract", A: []string{lo, hi, r.Pick(edRationales)}}
 	case 33:
 		if n := len(cur.L[edRetract]); n > 0 && r.Chance(80) {
 			e := cur.L[edRetract][r.Intn(n)]
+			if e.K[0] != e.K[1] && edTwin(e.K[0]) == e.K[1] && r.Chance(50) {
+				// twin bounds: name the interval as a file that shows only ONE of the bounds would (a reader of the
+				// formatted file drops what the file says); a no-op unless typed list and file have diverged
+				k := e.K[r.Intn(2)]
+				return edOp{Name: "dropretract", A: []string{k, k}}
+			}
+			if r.Chance(10) {
+				// one bound in the twin spelling: a different interval
+				if r.Bool() {
+					return edOp{Name: "dropretract", A: []string{edTwin(e.K[0]), e.K[1]}}
+				}
+				return edOp{Name: "dropretract", A: []string{e.K[0], edTwin(e.K[1])}}
+			}
 			return edOp{Name: "dropretract", A: []string{e.K[0], e.K[1]}}
 		}
 		v := edVersFor(r, modPath)
